@@ -67,6 +67,38 @@ def rename_program(prog, old, new):
     return Program([(new if v == old else v, t, ren(a)) for v, t, a in prog.typedefs], ren(prog.init), ren(prog.guard), ren(prog.body))
 
 
+def compound_numeric_probabilities(prog, rng):
+    """numeric probabilities of choices (all but the last) rewritten as a sum / difference / product of two rationals with the
+    same value ({1/4} -> {1/2 - 1/4}); the AST keeps the expression, so every spelling prints it"""
+    from fractions import Fraction
+    from ..lang.ast import binop, num
+    count = [0]
+
+    def rew(x):
+        if isinstance(x, tuple):
+            if len(x) == 3 and x[0] == "assign" and isinstance(x[2], tuple) and x[2] and x[2][0] == "choice":
+                alts = list(x[2][1])
+                new = []
+                for j, (e, p) in enumerate(alts):
+                    if j < len(alts) - 1 and isinstance(p, tuple) and p[0] == "num" and 0 < p[1] < 1 and rng.random() < 0.7:
+                        d = rng.choice([Fraction(1, 4), Fraction(1, 8), Fraction(1, 3), Fraction(1, 10)])
+                        form = rng.choice(["-", "+", "*"])
+                        if form == "-":
+                            p = binop("-", num(p[1] + d), num(d))
+                        elif form == "+" and p[1] > d:
+                            p = binop("+", num(p[1] - d), num(d))
+                        else:
+                            p = binop("*", num(2), num(p[1] / 2))
+                        count[0] += 1
+                    new.append((e, p))
+                return ("assign", x[1], ("choice", new))
+            return tuple(rew(y) for y in x)
+        if isinstance(x, list):
+            return [rew(y) for y in x]
+        return x
+    return Program(prog.typedefs, rew(prog.init), prog.guard, rew(prog.body)), count[0]
+
+
 def generate(seed, tier):
     cases = []
     for i in range(NPOS[tier]):
@@ -85,10 +117,16 @@ def generate(seed, tier):
             probe = re.sub(r"\bx\b", x, probe)
             prog.body.append(("assign", x, ("poly", parse_expr(probe))))
             feats = feats + ["precedence-probe"]
+        if rng.random() < 0.5:
+            prog, nrew = compound_numeric_probabilities(prog, rng)
+            if nrew:
+                feats = feats + ["probability-written-as-sum-or-difference"]
         params, inits = G.instantiate_params(rng, meta, prog)
         pv = program_variables(prog)
         goals = G.goal_monomials(rng, pv, max_deg=2, count=2, prefer=meta["data"] or None)
         styles = [{}] + rng.sample(STYLES, 3 if tier == "quick" else 4)
+        if "probability-written-as-sum-or-difference" in feats and not any(st.get("explicit_last_prob") for st in styles):
+            styles[-1] = dict(styles[-1], explicit_last_prob=True)   # omitted vs explicit last probability next to such a probability
         rename = None
         if i % 3 == 0:
             cand = [v for v in pv]
